@@ -957,7 +957,11 @@ func doLine(line string) string {
 		if err != nil || n < 0 {
 			return id + " BADCASE"
 		}
-		rule := strings.Repeat("(", n) + "x eq 1" + strings.Repeat(")", n)
+		open := "("
+		if len(x.list) > 3 && x.list[3].atom == "not" {
+			open = "not ("
+		}
+		rule := strings.Repeat(open, n) + "x eq 1" + strings.Repeat(")", n)
 		obj := map[string]interface{}{"x": 1}
 		var verdict, v2, v3 bool
 		var perr, e2 error
